@@ -25,10 +25,12 @@ def sig_key(sig):
     return json.dumps(sig, sort_keys=True)
 
 
-def execute_guarded(mod, case, wall=30.0, **kw):
+def execute_guarded(mod, case, wall=None, **kw):
     """execute with the wall backstop; a wall alarm is retried once and only a repeat is a verdict"""
     from . import seams
 
+    if wall is None:
+        wall = getattr(mod, "WALL", 30.0)
     for attempt in (1, 2):
         try:
             with seams.wall_guard(wall):
@@ -47,7 +49,7 @@ def minimise_violation(mod, case, key):
     from .shrink import minimise
 
     def same(cand):
-        r = execute_guarded(mod, cand, wall=10.0)
+        r = execute_guarded(mod, cand, wall=getattr(mod, "WALL", 10.0))
         return any(sig_key(v["sig"]) == key for v in r["violations"])
 
     steps = getattr(mod, "shrink_steps", None)
